@@ -1975,12 +1975,16 @@ func (m *machine) lowerTailCall(si *ssa.Instruction) {
 	}
 
 	isAllRegs := stackSlotSize == 0
+	// An indirect tail call keeps the callee pointer in r11, which is also the last integer argument register:
+	// when the signature fills every integer argument register the pointer would overwrite the last argument,
+	// so such a call falls back to a plain call, like the calls with stack arguments.
+	isPtrRegFree := int(calleeABI.ArgIntRealRegs) < len(intArgResultRegs)
 
 	switch {
 	case isDirectCall && isAllRegs:
 		call := m.allocateInstr().asTailCallReturnCall(directCallee, calleeABI)
 		m.insert(call)
-	case !isDirectCall && isAllRegs:
+	case !isDirectCall && isAllRegs && isPtrRegFree:
 		// In a tail call we insert the epilogue before the jump instruction,
 		// so an arbitrary register might be overwritten while restoring the stack.
 		// So, as compared to a regular indirect call, we ensure the pointer is stored
@@ -1994,7 +1998,7 @@ func (m *machine) lowerTailCall(si *ssa.Instruction) {
 	case isDirectCall && !isAllRegs:
 		call := m.allocateInstr().asCall(directCallee, calleeABI)
 		m.insert(call)
-	case !isDirectCall && !isAllRegs:
+	case !isDirectCall:
 		ptrOp := m.getOperand_Mem_Reg(m.c.ValueDefinition(indirectCalleePtr))
 		callInd := m.allocateInstr().asCallIndirect(ptrOp, calleeABI)
 		m.insert(callInd)
